@@ -85,6 +85,10 @@ def obligations(tier, seed):
     obs.append(dict(name='superfluous-witness', kind='superfluous'))
     for L in (1, 3, 5, 9): obs.append(dict(name='compact/read/L%d' % L, kind='cread', L=L))
     obs.append(dict(name='compact/write', kind='cwrite'))
+    # two symbolic digits followed by k zeros: every count of trailing zeros up to the 10^18 limit (ParseFixedPoint scales by 10^(trailing zeros): seed C13-5 had one wrong power of ten)
+    for kz in range(1, 11):
+        obs.append(dict(name='amount/2-digits-then-%d-zeros' % kz, kind='amount', ni=2, nf=0, zeros=kz))
+        if kz < 9 and (tier != 'quick' or kz in (1, 4, 8)): obs.append(dict(name='amount/2-digits-then-%d-zeros.2-digits' % kz, kind='amount', ni=2, nf=2, zeros=kz))
     for (ni, nf) in ((1, 0), (1, 1), (2, 2), (1, 3), (0, 1), (3, 0)) + (((1, 5), (2, 4)) if tier != 'quick' else ()):
         obs.append(dict(name='amount/%d.%d' % (ni, nf), kind='amount', ni=ni, nf=nf))
     for s in ['0.1,0.002', '1', '', 'abc', '1.', '.5', '-1', '1e3', '0.000000001', '0.12345678', '21000000.00000000', '0.123456780', '0.123456789', '92233720368.54775807', '1,2,3',
@@ -187,7 +191,7 @@ def prep(ob, V=None):
             if sym:
                 for c in di + df: assume.append(z3.And(z3.UGE(c, 48), z3.ULE(c, 57)))
                 if len(di) > 1: assume.append(di[0] != 48)
-            chars = di + ([ord('.')] + df if (ob['nf'] or False) else [])
+            chars = di + [48] * ob.get('zeros', 0) + ([ord('.')] + df if (ob['nf'] or False) else [])
             inputs = dict(di=di, df=df)
         else:
             chars = list(ob['s'].encode()); inputs = {}; di = df = None
@@ -218,11 +222,12 @@ def prep(ob, V=None):
                 # more than 8 fractional digits: representable only if the extra digits are zero
                 extra = df[8:]
                 if not ctx.branch(z3.And(*[R.B(c) == 48 for c in extra])): return dict(ok=0, amounts='*')
-            v = z3.BitVecVal(0, 64)
-            for c in di: v = v * 10 + z3.ZeroExt(56, R.B(c) - 48)
+            v = z3.BitVecVal(0, 128)
+            for c in di + [48] * ob.get('zeros', 0): v = v * 10 + z3.ZeroExt(120, R.B(c) - 48)
             frac = (df + [48] * 8)[:8]
-            for c in frac: v = v * 10 + z3.ZeroExt(56, R.B(c) - 48)
-            return dict(ok=1, amounts=[z3.simplify(v)])
+            for c in frac: v = v * 10 + z3.ZeroExt(120, R.B(c) - 48)
+            if ctx.branch(z3.UGE(v, z3.BitVecVal(10 ** 18, 128))): return dict(ok=0, amounts='*')          # ParseFixedPoint's range: below 10^18 units
+            return dict(ok=1, amounts=[z3.simplify(z3.Extract(63, 0, v))])
         return 'w_parse_amounts', [('in', txt), ('out', 64)], io, ref, assume, inputs
     if k == 'hex':
         full, F, stripped, wit, haswit = encode(ob['shape'], var)
